@@ -9,6 +9,7 @@ import sys
 sys.path.insert(0, os.path.join(os.path.dirname(os.path.abspath(__file__)), "..", "bind", "py"))
 import common
 import machine
+import wasmgen
 import pooltrace
 import tracecheck
 import wasm_encode
@@ -259,26 +260,39 @@ def main():
             pref = "mod_" if o["m"] else ""
             want = sorted("%sf%d" % (pref, 1 + k) for k in range(nfm))
             impl = [n for n in got if re.fullmatch(r"(mod_)?f\d+", n)]
-            if sorted(impl) != want or any(len(defs[n]) != 1 for n in impl):
-                devs.append(("options:function-once", "defined %s (multiplicity %s), wanted %s" % (impl, [len(defs[n]) for n in impl], want)))
             # same text as the single-file single-thread output with the same formatting options
             base = os.path.join(wd, "o%d-base" % j)
             rc2, _, se2 = translate(base, m, rm, dict(o, f=0, t=1, r=False))
             btext = open(os.path.join(base, "out.c")).read() if rc2 == 0 else ""
             bdefs = split_functions(btext)
-            for n in impl:
+            # The internal functions are recognised by the translator's naming scheme (<prefix>f<index>).  If the reference
+            # output does not show that scheme (a renaming of internal identifiers is not a behaviour), the name-based
+            # clauses are evaluated on whatever the two outputs have in common instead of being reported as violations.
+            scheme = sorted(n for n in bdefs if re.fullmatch(r"(mod_)?f\d+", n)) == want
+            if scheme and (sorted(impl) != want or any(len(defs[n]) != 1 for n in impl)):
+                devs.append(("options:function-once", "defined %s (multiplicity %s), wanted %s" % (impl, [len(defs[n]) for n in impl], want)))
+            if not scheme:
+                if set(defs) != set(bdefs) or any(len(defs[n]) != 1 for n in defs):
+                    devs.append(("options:function-once", "definitions %s vs single-file output %s" % (sorted(defs)[:8], sorted(bdefs)[:8])))
+            for n in (impl if scheme else sorted(set(defs) & set(bdefs))):
                 if n in bdefs and defs[n][0].replace("static ", "") != bdefs[n][0].replace("static ", ""):
                     devs.append(("options:function-text", "%s differs from the single-file output" % n))
                     break
             # static / dynamic classification
             multi = any(re.fullmatch(r"[sd]\d{10}\.c", f) for f in names)
-            if o["r"] and multi:
+            if o["r"] and multi and scheme:
                 for k in range(nfm):
                     n = "%sf%d" % (pref, 1 + k)
                     f = (where.get(n) or ["?"])[0]
                     if f[0] in "sd" and (f[0] == "s") != (k in static):
                         devs.append(("options:static-classification", "%s in %s but static=%s" % (n, f, k in static)))
                         break
+            elif o["r"] and multi:
+                # without the naming scheme only the counts can be compared
+                ns_ = sum(1 for n, fs in where.items() if fs[0][0] == "s" and re.fullmatch(r"[sd]\d{10}\.c", fs[0]))
+                nd_ = sum(1 for n, fs in where.items() if fs[0][0] == "d" and re.fullmatch(r"[sd]\d{10}\.c", fs[0]))
+                if (ns_, nd_) != (len(static), nfm - len(static)):
+                    devs.append(("options:static-classification", "%d static / %d dynamic definitions, expected %d / %d" % (ns_, nd_, len(static), nfm - len(static))))
             # every file compiles on its own against the header
             if o["d"] == "arrays":
                 for f in sorted(files):
@@ -313,6 +327,13 @@ def main():
             items.append({"id": "opt%d" % mi, "module": m,
                           "script": [INST] + [{"op": "call", "inst": 1, "export": "fn%d" % k, "args": [{"t": "i32", "b": b32(x)}]}
                                               for k in range(6) for x in (0, 5, 0xFFFFFFFF)]})
+        # control flow and stack shapes from the C03 families and generated programs: pretty printing and file splitting
+        # must not change what any of them computes
+        src3 = open(os.path.join(os.path.dirname(os.path.abspath(__file__)), "c03.py")).read().replace("main_wrap(main)", "")
+        ns3 = {"__file__": os.path.join(os.path.dirname(os.path.abspath(__file__)), "c03.py"), "__name__": "borrowed_c03"}
+        exec(compile(src3, "c03", "exec"), ns3)
+        items += ns3["directed"](random.Random(SEED), "quick")
+        items += wasmgen.programs("control", 16 if tier == "quick" else 200, SEED, args_per_prog=3)
         builds = []
         for o in [{"t": 1, "f": 0, "p": False, "g": False, "m": False, "d": "arrays", "r": False}, {"t": 3, "f": 1, "p": True, "g": True, "m": True, "d": "arrays", "r": False},
                   {"t": 2, "f": 2, "p": False, "g": False, "m": False, "d": "arrays", "r": False}, {"t": 64, "f": 4, "p": True, "g": False, "m": True, "d": "arrays", "r": False},
